@@ -45,6 +45,7 @@ def run(ctx):
     ctx.rule('R5.S', 'Lexer.get_tokens interpreted on short texts agrees token by token with the rule-table model the other rules use', floor=1)
     RL.check_scan_semantics(ctx, 'R5.S')
     # R5.1 is a statement about the rule table; it speaks for the scan only if the lexer that scans has that table installed
+    check_plain_scripts(ctx)
     ctx.rule('R5.9', 'the lexer that scans the script has the complete rule table: the default instance is published only when initialised', floor=5)
     RL.check_singleton_lock(ctx, 'R5.9')
     from .. import rules_base as RB
@@ -327,3 +328,45 @@ def check_paren_protocol(ctx):
             bad = f'evaluation fails: {e}'
         ctx.ob('R5.8', f'paren:{name}', loc, f'{name}: every ";" inside the parentheses is seen at level >= 1, the one after ")" at level <= 0',
                bad is None, (bad or '') + f' (skeleton: {script})')
+
+
+PLAIN_SCRIPTS = [
+    # (key, text, number of statements, what goes wrong otherwise)
+    ('two statements', 'select 1; select 2', 2, ''),
+    ('two statements, comment between', 'select 1; /* c */ select 2;', 2, ''),
+    ('line comment behind a terminator', 'select 1; -- c\nselect 2', 2, ''),
+    ('terminator in a literal, a name, a comment', "select ';', \";\" /* ; */ from t; select 2", 2, ''),
+    ('trailing-comment', 'select 1; /* c */', 1, 'a comment behind the last terminator is returned as a statement of its own'),
+    ('trailing-comment', 'select 1;\n-- c\n', 1, 'a comment behind the last terminator is returned as a statement of its own'),
+    ('go-as-name', 'select stop, go from lights; select 2', 2, 'a column named like the batch separator GO ends the statement'),
+    ('go-as-name', 'select a as go from t', 1, 'an alias named like the batch separator GO ends the statement'),
+]
+
+
+def check_plain_scripts(ctx):
+    """Plain scripts through the interpreted splitter: the text is lexed with the rule-table model (what R5.S shows the lexer to do), the
+    token stream goes through StatementSplitter.process (source interpreted), and the number of statements must be the number of
+    semicolon-joined statements written."""
+    from . import c17
+    from .. import miniev as ME
+    ctx.rule('R5.10', 'plain scripts interpreted through StatementSplitter.process: exactly the written statements come back', floor=1)
+    T = get_tables(ctx)
+    f = ctx.repo.func(c17.SPLITTER + '.process')
+    loc = f'{f.mod.relpath}:{f.node.lineno}'
+    res = {}
+    for key, text, want, what in PLAIN_SCRIPTS:
+        stream = [(tt, v) for tt, v, _ in T.lex_all(text)]
+        try:
+            got = c17.run_process(ctx, stream)
+        except (ME.Unsupported, ME.Unknown) as e:
+            ctx.ob('R5.10', 'simulation', loc, 'StatementSplitter.process is evaluable on token streams', None, f'{text!r}: {e}')
+            return
+        except ME.Crash as e:
+            res.setdefault(key, []).append(f'{text!r}: {e}')
+            continue
+        pieces = [''.join(t.value for t in toks) for toks in got]
+        res.setdefault(key, [])
+        if len(pieces) != want:
+            res[key].append(f'{text!r} -> {pieces}: {len(pieces)} statement(s) for {want} written' + (f' ({what})' if what else ''))
+    for key, bad in res.items():
+        ctx.ob('R5.10', key, loc, f'{key}: the interpreted splitter returns the written statements', not bad, '; '.join(bad[:2]))
